@@ -1047,7 +1047,10 @@ class Model:
                 GraphBuilder(to_float32=to_float32).add(*nodes_and_vars).build_model()
             )
             nodes_and_vars = [*model.nodes.values(), *model.vars.values()]
-            model.pop_nodes_and_vars()
+
+            # release the nodes, but keep the model nodes and seed inputs attached
+            for node in model.nodes.values():
+                node._unset_model()
 
         nodes = [nv for nv in nodes_and_vars if isinstance(nv, Node)]
         nodes = list(dict.fromkeys(nodes).keys())
@@ -1156,6 +1159,16 @@ class Model:
 
         return empty
 
+    @staticmethod
+    def _remove_model_seed_inputs(nodes: Iterable[Node]) -> None:
+        """Detaches the seed nodes added by the model from nodes without a model."""
+        for node in nodes:
+            seed = node.kwinputs.get("seed", None)
+
+            if seed is not None and seed.name.startswith("_model_"):
+                kwinputs = {kw: n for kw, n in node.kwinputs.items() if kw != "seed"}
+                node.set_inputs(*node.inputs, **kwinputs)
+
     def _recursive_inputs(self, name: str) -> list[Node]:
         """Returns the recursive inputs of a model node."""
         nodes = [self._nodes[name]]
@@ -1199,6 +1212,7 @@ class Model:
         for node in nodes.values():
             node._unset_model()
 
+        self._remove_model_seed_inputs(nodes.values())
         nodes = {nm: nd for nm, nd in nodes.items() if not nm.startswith("_model")}
 
         return nodes, _vars
@@ -1255,6 +1269,7 @@ class Model:
         for node in nodes.values():
             node._unset_model()
 
+        self._remove_model_seed_inputs(nodes.values())
         nodes = {nm: nd for nm, nd in nodes.items() if not nm.startswith("_model")}
 
         # clear the model
